@@ -18,6 +18,7 @@ Events are JSON lists:
     ["mutate", prop, route, tbl]    in-place mutation of the value served            (C10)
     ["pickle", route, tbl]          pickle round trip of the atom                     (C10)
     ["formula", string, tbl]        formula(string, table=T): table membership        (C10)
+    ["keepdrop", tbl]               keep atoms of T, drop the table object, restore the atoms by pickle/copy   (C10)
 tbl is "public", "T1" or "T2".
 """
 import hashlib
@@ -492,6 +493,39 @@ def do_event(w, ev):
     if kind == "pickle":
         o = w.obj(ev[1], ev[2])
         return pickle.loads(pickle.dumps(o)) is o
+    if kind == "keepdrop":
+        # ["keepdrop", tbl]: keep only some atoms (and a formula built from atoms) of a private table, drop every
+        # reference to the PeriodicTable object itself, collect garbage, then restore the kept objects through
+        # pickle (three protocols), copy and deepcopy: each must come back as the identical object of that table
+        import copy
+        import gc
+        import periodictable as pt
+        t = w.tables.pop(ev[1])
+        kept = [t.Fe, t.Fe[56], t.Fe.ion[3], t.O[18].ion[-2], t.D, t[0]]
+        f = pt.formula([(2, t.Fe), (3, t.O[18].ion[-2])])
+        masses = [a.mass for a in kept]
+        del t
+        gc.collect()
+        bad = []
+        for a, m in zip(kept, masses):
+            for how, fn in (("pickle0", lambda x: pickle.loads(pickle.dumps(x, 0))),
+                            ("pickle2", lambda x: pickle.loads(pickle.dumps(x, 2))),
+                            ("pickleH", lambda x: pickle.loads(pickle.dumps(x, pickle.HIGHEST_PROTOCOL))),
+                            ("copy", copy.copy), ("deepcopy", copy.deepcopy)):
+                try:
+                    b = fn(a)
+                    if b is not a or b.mass != m:
+                        bad.append("%s(%r) is another object" % (how, a))
+                except Exception as e:  # noqa
+                    bad.append("%s(%r) raised %s" % (how, a, type(e).__name__))
+        for how, fn in (("pickle", lambda x: pickle.loads(pickle.dumps(x))), ("deepcopy", copy.deepcopy)):
+            try:
+                g = fn(f)
+                if [id(x) for x in g.atoms] != [id(x) for x in f.atoms]:
+                    bad.append("%s(formula) holds other atoms" % how)
+            except Exception as e:  # noqa
+                bad.append("%s(formula) raised %s" % (how, type(e).__name__))
+        return bad[:4]
     if kind == "lookup":
         # ["lookup", how, key, tbl] -> which object a by-name/by-symbol/by-string lookup serves
         t = w.table(ev[3])
